@@ -1,7 +1,9 @@
 package triage
 
 import (
+	"context"
 	"fmt"
+	"net"
 	"os"
 	"path/filepath"
 	"sort"
@@ -13,6 +15,8 @@ import (
 	"github.com/facebookincubator/dns/dnsrocks/dnsdata/rdb"
 	"github.com/facebookincubator/dns/dnsrocks/dnsserver"
 	"github.com/facebookincubator/dns/dnsrocks/dnsserver/stats"
+	"github.com/coredns/coredns/plugin/pkg/dnstest"
+	"github.com/facebookincubator/dns/dnsrocks/dnsserver/test"
 	"github.com/miekg/dns"
 )
 
@@ -281,5 +285,36 @@ func TestRootWildcardMap(t *testing.T) {
 	for _, q := range [][2]string{{"10.1.1.1", ""}, {"9.9.9.9", "10.1.2.0/24"}, {"20.1.1.1", ""}} {
 		got := same(t, bs, "A", "www.example.com", q[0], q[1])
 		t.Logf("%v -> %s", q, strings.ReplaceAll(got, "\n", " | "))
+	}
+}
+
+// F18: IPv4-mapped IPv6 client subnet (family 2) must respect the client's own prefix length.
+func TestF18MappedV4ClientSubnet(t *testing.T) {
+	data := "Zexample.com,a.ns.example.com,dns.example.com,1,7200,1800,604800,120,120,,\n&example.com,,a.ns.example.com,172800,,\n" +
+		"+www.example.com,1.1.1.1,60,,\\000\\001\n+www.example.com,9.9.9.9,60,,\n" +
+		"8example.com,ea\n8*.example.com,ea\n%\\000\\001,10.1.0.0/16,ea\n"
+	bs := build(t, data)
+	for _, b := range bs {
+		for _, tc := range []struct {
+			mask uint8
+			want string
+		}{{104, "9.9.9.9"}, {120, "1.1.1.1"}} {
+			req := new(dns.Msg)
+			req.SetQuestion("www.example.com.", dns.TypeA)
+			o := new(dns.OPT)
+			o.Hdr.Name, o.Hdr.Rrtype = ".", dns.TypeOPT
+			e := &dns.EDNS0_SUBNET{Code: dns.EDNS0SUBNET, Family: 2, SourceNetmask: tc.mask, Address: net.ParseIP("::ffff:10.1.3.0")}
+			o.Option = append(o.Option, e)
+			req.Extra = []dns.RR{o}
+			rec := dnstest.NewRecorder(&test.ResponseWriterCustomRemote{RemoteIP: "9.9.9.9"})
+			if _, err := b.h.ServeDNSWithRCODE(dnsserver.WithMaxAnswer(context.TODO(), 8), rec, req); err != nil {
+				t.Fatal(err)
+			}
+			got := render(rec.Msg)
+			hasLoc := strings.Contains(got, "1.1.1.1")
+			if hasLoc != (tc.want == "1.1.1.1") {
+				t.Errorf("%s: ::ffff:10.1.3.0/%d: located answer=%v, want %s\n%s", b.name, tc.mask, hasLoc, tc.want, got)
+			}
+		}
 	}
 }
